@@ -113,6 +113,8 @@ MIRRORED = {
     "Reaction._id": "id",
     "Object._id": "id",
     "Metabolite._id": "id",
+    "Model.reactions": "members",
+    "Model.metabolites": "members",
 }
 
 
@@ -127,7 +129,9 @@ def _sync_nodes(ctx, fn: FuncInfo, g: CFG, kind: str, recv_text: str) -> Tuple[S
             a = n.func.attr
             if kind == "bounds" and a == "update_variable_bounds":
                 hit = _recv(ctx, fn, n.func.value) == recv_text or recv_text == "*"
-            elif kind in ("bounds", "stoich") and a == "_populate_solver":
+            elif kind in ("bounds", "stoich", "members") and a == "_populate_solver":
+                hit = True
+            elif kind == "members" and a in ("add_cons_vars", "remove_cons_vars"):
                 hit = True
             elif kind == "stoich" and a == "set_linear_coefficients" and inf.is_type(fn, n.func.value, "OCons"):
                 if n.args and isinstance(n.args[0], ast.Dict):
@@ -214,7 +218,22 @@ def check_sync_and_atomic(ctx) -> None:
         g = ctx.flow.cfg(fn)
         for w in writes:
             kind = MIRRORED[w.cell]
+            if kind == "members" and (w.op != "add" or w.roots != frozenset([SELF])):
+                # removals go solver-first (C01.members / C01.pair decide them); re-indexing changes no membership
+                continue
             recv_text = _recv(ctx, fn, w.recv)
+            if kind == "id" and w.roots != frozenset([SELF]):
+                # the identifier of *another* object: only new objects, or kinds that have no solver object named
+                # after them, may be renamed without the id setter (which renames the variables / the constraint)
+                ts = ctx.inf.type_of(fn, w.recv) if isinstance(w.recv, ast.AST) else []
+                classes = {t[1] for t in ts if t[0] == "cls"}
+                if w.roots and all(r in (FRESH, CONST) for r in w.roots):
+                    ctx.ok("C01.sync", fn, enclosing_stmt(w.node), "identifier of an object created here", nontrivial=False)
+                elif classes and not (classes & {"Reaction", "Metabolite", "Object", "Species"}):
+                    ctx.ok("C01.sync", fn, enclosing_stmt(w.node), "identifier of an object without solver mirror (gene/group)", nontrivial=False)
+                else:
+                    ctx.bad("C01.sync", fn, enclosing_stmt(w.node), "the identifier of an existing object is written directly instead of through its `id` setter: for a reaction or metabolite of a model the solver's variables / constraint keep the old name, so the solver no longer holds the model's problem")
+                continue
             if kind == "id" and not _id_has_mirror(ctx, fn, w):
                 ctx.ok("C01.sync", fn, enclosing_stmt(w.node), "identifier of an object without solver mirror (gene/group/detached)", nontrivial=False)
                 continue
@@ -294,6 +313,7 @@ def _need(kind: str) -> str:
         "bounds": "update_variable_bounds() / _populate_solver",
         "stoich": "set_linear_coefficients with the variable pair / _populate_solver",
         "id": "renaming the solver variable pair / row",
+        "members": "_populate_solver / add_cons_vars for the new members",
     }[kind]
 
 
